@@ -240,7 +240,19 @@ def interpret(body, cell):
             try:
                 return ('fconst', float(txt))
             except ValueError:
-                return TOP
+                pass
+            # a named float constant: the literal its initialiser assigns (`const GAP_CLOSED: f32 = 0.0`)
+            info = (body.facts.consts or {}).get(c.get('named') or '') if isinstance(body.facts.consts, dict) else None
+            if info and 'body' in info:
+                for blk in info['body'].get('blocks', []):
+                    for st in blk['stmts']:
+                        if st.get('k') == 'assign' and st['place']['l'] == 0 and not st['place']['p'] and st['rv'].get('k') == 'use' and 'const' in st['rv']['op']:
+                            c2 = st['rv']['op']['const']
+                            if 'float' in c2 and c2.get('float') != c.get('float'):
+                                return const_of(st['rv']['op'])
+                            if 'int' in c2:
+                                return ('const', c2['int'])
+            return TOP
         return TOP
 
     def rd_place(env, pl):
